@@ -45,7 +45,7 @@ Print Assumptions py_encode_total.
 (* The full statement is false of the code (known finding C01/signed-min):
    witness struct S { a @0: i8 } with a = -128. *)
 Definition c01_witness_schema : schema :=
-  {| structs := [ {| sname := "S"; sfields := [ {| fname := "a"; fid := 0; fty := SI 8 |} ] |} ];
+  {| structs := [ {| sname := "S"; sfields := [ {| fname := "a"; fid := 0; fty := SI 8; funit := None |} ] |} ];
      enums := [] |}.
 Theorem py_roundtrip_refuted_signed_min : ~ py_roundtrip_statement.
 Proof.
@@ -59,15 +59,15 @@ Print Assumptions py_roundtrip_refuted_signed_min.
 (* Non-vacuity: every constructor, nested, at odd bit offsets. *)
 Definition c01_example_schema : schema :=
   {| structs :=
-       [ {| sname := "In"; sfields := [ {| fname := "x"; fid := 1; fty := SI 5 |};
-                                        {| fname := "y"; fid := 0; fty := SF32 |} ] |};
+       [ {| sname := "In"; sfields := [ {| fname := "x"; fid := 1; fty := SI 5; funit := None |};
+                                        {| fname := "y"; fid := 0; fty := SF32; funit := None |} ] |};
          {| sname := "Out"; sfields :=
-              [ {| fname := "a"; fid := 3; fty := SU 3 |};
-                {| fname := "b"; fid := 0; fty := SStr |};
-                {| fname := "c"; fid := 2; fty := SArr (SStructRef "In") 2 |};
-                {| fname := "d"; fid := 5; fty := SDyn (SOpt (SI 64)) |};
-                {| fname := "e"; fid := 4; fty := SEnumRef "E" |};
-                {| fname := "f"; fid := 6; fty := SF64 |} ] |} ];
+              [ {| fname := "a"; fid := 3; fty := SU 3; funit := None |};
+                {| fname := "b"; fid := 0; fty := SStr; funit := None |};
+                {| fname := "c"; fid := 2; fty := SArr (SStructRef "In") 2; funit := None |};
+                {| fname := "d"; fid := 5; fty := SDyn (SOpt (SI 64)); funit := None |};
+                {| fname := "e"; fid := 4; fty := SEnumRef "E"; funit := None |};
+                {| fname := "f"; fid := 6; fty := SF64; funit := None |} ] |} ];
      enums := [ {| ename := "E"; evals := [("A"%string, 0); ("B"%string, 5)] |} ] |}.
 Definition c01_example_value : value :=
   VStruct [("b"%string, VStr [104; 105]);
